@@ -404,6 +404,18 @@ class EdSim(core.Engine):
                         print_model(files[k]), list(files[k].raw_directives)
                     else:
                         files.pop(k)
+                elif op['op'] == 'rekey':
+                    if not keys:
+                        continue
+                    k = keys[op['k'] % len(keys)]
+                    if k not in files:
+                        continue
+                    a = os.path.normpath(os.path.abspath(k))
+                    new_key = {'abs': a, 'dot': './' + os.path.relpath(a, os.getcwd()), 'rel': os.path.relpath(a, os.getcwd())}[op['spell']]
+                    if new_key == k or new_key in files:
+                        continue
+                    files[new_key] = files.pop(k)     # the same file under another spelling of its path
+                    body_state.setdefault('rekeyed', []).append(a)
                 elif op['op'] == 'add':
                     newp = op['path'].replace('{ROOT}', root)
                     files[newp] = parser().parse(op['text'], models.File)
@@ -520,22 +532,27 @@ class EdSim(core.Engine):
                 if n != 1:
                     return v('read_once', f'{rel(p)} was opened for reading {n} times')
             order = sorted(closure)
+            rekeyed_now: list[str] = []
             popped: list[str] = []
             added: dict[str, str] = {}
             for op in ops:
                 if op['op'] in ('edit', 'read', 'pop') and order:
                     p = order[op['k'] % len(order)]
-                    if p in popped:
-                        continue
+                    if p in popped or p in rekeyed_now:
+                        continue        # (the body addresses files by their original key)
                     if op['op'] == 'edit':
                         apply_body_op(shadow[p], op)
                     elif op['op'] == 'pop':
                         popped.append(p)
+                elif op['op'] == 'rekey' and order:
+                    p = order[op['k'] % len(order)]
+                    if p in body_state.get('rekeyed', []) and p not in popped and p not in rekeyed_now:
+                        rekeyed_now.append(p)
                 elif op['op'] == 'add':
                     newp = op['path'].replace('{ROOT}', root)
                     added[os.path.normpath(os.path.join(cwd, newp))] = print_model(parser().parse(op['text'], models.File))
         else:
-            popped, added = [], {}
+            popped, added, rekeyed_now = [], {}, []
             for op in ops:
                 if op['op'] == 'edit':
                     apply_body_op(shadow[entry_abs], op)
@@ -551,12 +568,21 @@ class EdSim(core.Engine):
                 changed.add(p)
         for p, t in added.items():
             expected[p] = t.encode('utf-8')
+        for p in (rekeyed_now if recursive else []):
+            # removed under one spelling and re-entered under another: still the same file, holding the model
+            if p not in popped:
+                expected[p] = print_model(shadow[p]).encode('utf-8')
+                added[p] = print_model(shadow[p])
+                popped.append(p)
         if changed:
             stats['worlds_with_edits'] += 1
         if any(b'\r' in before[p] for p in changed):
             stats['edited_file_with_cr'] += 1
         for p in sorted(set(expected) | set(after)):
             if expected.get(p) != after.get(p):
+                if recursive and p in rekeyed_now:
+                    return v('rekeyed_entry_lost', f'{rel(p)} was taken out of the mapping and put back under another spelling of its path; '
+                             f'afterwards the file {"is missing" if p not in after else "does not hold the printed model"}')
                 if p in popped:
                     return v('popped_not_deleted', f'{rel(p)} was removed from the mapping but still exists')
                 if p in added:
@@ -615,8 +641,10 @@ class EdSim(core.Engine):
                 ops.append(op)
             elif r < 0.65:
                 ops.append({'op': 'read', 'k': rng.randrange(12)})
-            elif r < 0.78 and api == 'recursive':
+            elif r < 0.72 and api == 'recursive':
                 ops.append({'op': 'pop', 'k': rng.randrange(12)})
+            elif r < 0.78 and api == 'recursive':
+                ops.append({'op': 'rekey', 'k': rng.randrange(12), 'spell': rng.choice(['abs', 'dot', 'rel'])})
             elif r < 0.92 and api == 'recursive':
                 name = rng.choice(['new1.bean', 'newdir/n2.bean', 'sub/new3.bean', 'newdir/deep/n4.bean'])
                 if any(o.get('name') == name for o in ops) or name in world:
